@@ -101,7 +101,11 @@ func verifyFunction(p *Program, fn *ssa.Function, c *FuncContract, emit func(*Ob
 	// refinement of an interface method: its precondition plus the coupling invariant
 	// must imply the method's own precondition
 	if c.Impl != nil {
-		fe.refineRequires(st.snapshot())
+		if _, isFuncType := fe.implFuncType(); isFuncType {
+			fe.refineFuncType(st.snapshot())
+		} else {
+			fe.refineRequires(st.snapshot())
+		}
 	}
 	// requires
 	pre := st.snapshot()
@@ -284,6 +288,60 @@ func (fe *FnExec) implInfo() (ic *FuncContract, it types.Type, tags []string) {
 	return
 }
 
+// implFuncType: "implements pkg.FuncType inv _" names a function type instead of an
+// interface: the function is one of the values that flow into variables of that
+// type, so the function type's abstract precondition must imply its own.
+func (fe *FnExec) implFuncType() (*FuncContract, bool) {
+	t, err := fe.P.resolveType(fe.C.Impl.Iface, fe.C.Pkg)
+	if err != nil {
+		return nil, false
+	}
+	if _, ok := t.Underlying().(*types.Signature); !ok {
+		return nil, false
+	}
+	return fe.P.Contracts["functype "+typeKey(t)], true
+}
+
+func (fe *FnExec) refineFuncType(st *State) {
+	fc, _ := fe.implFuncType()
+	if fc == nil {
+		fe.fail("implements %s: the function type has no contract", fe.C.Impl.Iface)
+	}
+	tags := fe.C.Impl.Tags
+	if len(tags) == 0 {
+		tags = []string{"support"}
+	}
+	env := fe.env(st, st)
+	vars := map[string]Binding{}
+	vars["fnval"] = Binding{Scalar{fe.funcRef(fe.Fn)}, fe.Fn.Signature}
+	for i, prm := range fe.Fn.Params {
+		n := prm.Name()
+		if i < len(fc.ParamNames) && fc.ParamNames[i] != "_" {
+			n = fc.ParamNames[i]
+		}
+		vars[n] = Binding{st.vals[prm], prm.Type()}
+	}
+	env.vars = vars
+	env.pkg = fc.Pkg
+	for i, cl := range fc.Requires {
+		t, err := env.evalBool(cl.E)
+		if err != nil {
+			fe.fail("implements: function type requires#%d (%s): %v", i+1, cl.Text, err)
+		}
+		st.assume(t, "function type requires: "+cl.Text)
+	}
+	fe.cover(st, "refine-entry", "function type precondition satisfiable")
+	own := fe.env(st, st)
+	for i, cl := range fe.C.Requires {
+		t, err := own.evalBool(cl.E)
+		if err != nil {
+			fe.fail("requires#%d (%s): %v", i+1, cl.Text, err)
+		}
+		fe.assert(st, t, fmt.Sprintf("refine/requires#%d", i+1), "requires", tags,
+			"precondition of "+fe.C.Impl.Iface+" ==> "+cl.Text, fe.Fn.Pos())
+	}
+}
+
 // implEnv: the interface contract's names bound to this method's receiver (boxed),
 // parameters (by position) and, when given, results.
 func (fe *FnExec) implEnv(st *State, old *State, ic *FuncContract, it types.Type, results []SVal) *Env {
@@ -416,6 +474,9 @@ func (fe *FnExec) refineEncapsulation(tags []string) {
 // refineEnsures: at a return, the coupling invariant holds again and the interface
 // method's [proto] postconditions hold for this implementation.
 func (fe *FnExec) refineEnsures(st *State, results []SVal, pos token.Pos) {
+	if _, isFuncType := fe.implFuncType(); isFuncType {
+		return
+	}
 	ic, it, tags := fe.implInfo()
 	fe.assert(st, fe.implInvTerm(st, fe.entry), "refine/inv", "ensures", tags, "coupling invariant "+fe.C.Impl.Inv+" re-established", pos)
 	ienv := fe.implEnv(st, fe.entry, ic, it, results)
